@@ -31,6 +31,7 @@ type ManifestOut struct {
 	Inverse int      `json:"inverse"`
 	Refused int      `json:"refused"`
 	Pkgs    int      `json:"pkgs"`
+	Answers []string `json:"answers,omitempty"` // every lookup with its answer (root replaced), for the map-order comparison
 }
 
 func manifestHandler(raw json.RawMessage) (any, error) {
@@ -107,6 +108,7 @@ func manifestHandler(raw json.RawMessage) (any, error) {
 		guardf("LocalPathForSource", func() {
 			p, err := b.LocalPathForSource(a)
 			out.Lookups++
+			out.Answers = append(out.Answers, strings.ReplaceAll(fmt.Sprintf("fwd %v => %q err=%v", a, p, err != nil), root, "<ROOT>"))
 			if err == nil && !inside(p) {
 				fact("lookup of %s returns %q which is not strictly inside the bundle root", a, strings.Replace(p, root, "<ROOT>", 1))
 			}
@@ -146,6 +148,7 @@ func manifestHandler(raw json.RawMessage) (any, error) {
 	for _, p := range paths {
 		guardf("SourceForLocalPath", func() {
 			src, err := b.SourceForLocalPath(p)
+			out.Answers = append(out.Answers, strings.ReplaceAll(fmt.Sprintf("rev %q => %v err=%v", p, src, err != nil), root, "<ROOT>"))
 			if err != nil {
 				return
 			}
@@ -353,6 +356,21 @@ func RunC18(tier string) int {
 			rep.Sample(fmt.Sprintf("%s => opened, %d forward lookups, %d inverse checks, %d refusals", docs[i].Desc, out.Lookups, out.Inverse, out.Refused))
 		}
 	})
+	{
+		// E4: every answer of every lookup must be the same under every iteration order of the maps the library ranges over
+		margs := make([]any, len(docs))
+		for i := range docs {
+			margs[i] = docs[i]
+		}
+		st := &mapOrdStats{}
+		exploreMapOrders(0, "manifest", margs, 1, func(_ int, raw json.RawMessage) string { return canonArena(raw) }, // relative probe paths contain the scratch directory name
+			func(i int, choices []int, base, got string, arg MapOrdArg) {
+				rep.Violation("sourcebundle.Bundle/answer-depends-on-map-iteration-order", fmt.Sprintf("manifest %s doc=%s :: with map orders %v: %s", docs[i].Desc, docs[i].Doc, choices, firstDiff(base, got)), "mapord", arg)
+			}, st)
+		rep.Evaluations += st.Runs
+		rep.Extra["map_orders"] = st.summary()
+		fmt.Printf("  map-order part: documents=%d runs=%d choice points=%d differing=%d\n", st.Tasks, st.Runs, st.Points, st.Differing)
+	}
 	rep.States = len(docs)
 	rep.Transitions = rep.Evaluations
 	rep.Extra["documents"] = len(docs)
